@@ -901,6 +901,20 @@ class LuaASTEchoWriter(BaseLuaWriter):
                 for t in self._walk(block):
                     yield t
                 self._indent -= 1
+        if short_if and node.exp_block_pairs[-1][0] is not None:
+            # The parser drops an "else" that has no statements after it
+            # (PICO-8 accepts "if (c) x=1 else"), but its tokens are still in
+            # the node's range.
+            pos = self._pos
+            while (pos < node.end_pos and
+                   (isinstance(self._tokens[pos], lexer.TokSpace) or
+                    isinstance(self._tokens[pos], lexer.TokNewline) or
+                    isinstance(self._tokens[pos], lexer.TokComment))):
+                pos += 1
+            if (pos < node.end_pos and
+                    self._tokens[pos].matches(lexer.TokKeyword(b'else'))):
+                yield self._get_text(node, b'else')
+                yield self._get_semis(node)
         if not short_if:
             yield self._get_text(node, b'end')
 
